@@ -149,7 +149,13 @@ frg::expected<format_error> printf_format(A agent, const char *s, va_struct *vsp
 		if(*s == '*') {
 			++s;
 			FRG_ASSERT(*s);
-			opts.minimum_width = pop_arg<int>(vsp, &opts);
+			int w = pop_arg<int>(vsp, &opts);
+			// A negative field width argument is taken as a - flag followed by a positive field width.
+			if(w < 0) {
+				opts.left_justify = true;
+				w = (w == -__INT_MAX__ - 1) ? __INT_MAX__ : -w;
+			}
+			opts.minimum_width = w;
 		}else{
 			int w = 0;
 			while(*s >= '0' && *s <= '9') {
@@ -171,7 +177,10 @@ frg::expected<format_error> printf_format(A agent, const char *s, va_struct *vsp
 			if(*s == '*') {
 				++s;
 				FRG_ASSERT(*s);
-				opts.precision = pop_arg<int>(vsp, &opts);
+				int value = pop_arg<int>(vsp, &opts);
+				// A negative precision argument is taken as if the precision were omitted.
+				if(value >= 0)
+					opts.precision = value;
 			}else{
 				int value = 0;
 				// If no integer follows the '.', then precision is taken to be zero
